@@ -19,6 +19,7 @@ from fractions import Fraction as Fr
 
 from harness import c02_gen as G
 from harness import c02_x as X
+from harness import c02_misc
 from harness.common import Ctx, REPO, coq_Q, coq_list, coq_opt, git_blob
 from translators import c02_sql as T
 
@@ -109,7 +110,7 @@ def skeleton_stage(ctx: Ctx):
     ctx.obligations += len(terms)
     ctx.discharged += (len(terms) - len(bad)) if not errs else 0
     ctx.cov["skeleton_obligations"] = len(terms)
-    ctx.cov["translated_sources"] = {p: git_blob(REPO / p) for p in SOURCES}
+    ctx.cov.setdefault("translated_sources", {}).update({p: git_blob(REPO / p) for p in SOURCES})
     if kept:
         ctx.cov["samples"].append({"skeleton_obligation": {"dialect": kept[0]["dialect"],
                                                             "final": kept[0]["translated"]["final"][:400]}})
@@ -461,6 +462,8 @@ def run(ctx: Ctx):
         "comparison are TRUE; distinct by full case.")
     ctx.trusted += [
         "translators/c02_sql.py (sqlglot parse of the emitted SQL; CASE -> nested if; cast(x as float8) -> x; level conditions opaque)",
+        "translators/c02_misc.py (Python ast of splink/internals/misc.py -> Gallina over Q; log2 / 2**w / w == 0.0 on float weights are "
+        "abstract Section variables; float literals read as exact decimals)",
         "harness X: the engine evaluates each level's SQL condition per pair (outcome vectors fed to the Gallina model); "
         "term frequencies recomputed in Python from the data / the registered lookup as exact fractions",
         "engine POW for fractional weights: finite table computed by Python math.pow on the model-checked exact base and exponent",
@@ -473,6 +476,7 @@ def run(ctx: Ctx):
         ctx.violation("theorems of Properties/C02.v no longer check", {"broken": "Properties/C02.v"}, found_input=False)
     if ctx.replay and replay(ctx):
         return
+    c02_misc.stage(ctx)
     failing, errs = skeleton_stage(ctx)
     report_skeleton_failures(ctx, failing, errs)
     correspondence(ctx)
